@@ -11,8 +11,18 @@ import (
 
 const vTwo52 = 4503599627370496.0
 
+// vCall1 calls a built-in with one argument -- twice: these functions are functions of their argument (the same
+// call again has the same outcome, whatever happened before) and they leave the argument alone (it may be a
+// literal of the parsed script).
 func vCall1(fs *functionStorer, name string, arg *variable.Value) (*variable.Value, bool) {
+	arg0 := vCopyValue(arg)
 	v, err := fs.call(name, []*variable.Value{arg})
+	vAssert(vValueEq(*arg, arg0), name+" does not change its argument")
+	v2, err2 := fs.call(name, []*variable.Value{arg})
+	vAssert((err == nil) == (err2 == nil), name+": the same call again fails or succeeds as the first time")
+	if err == nil && err2 == nil && v != nil {
+		vAssert(v2 != nil && vValueEq(*v, *v2), name+": the same call again returns the same value")
+	}
 	return v, err == nil
 }
 
@@ -78,8 +88,10 @@ func VHRoundPlaces() {
 	lim := math.Pow(2, float64(b))
 	vAssume(x == x && -lim < x && x < lim)
 	fs := vNewFunctionStorer("a")
-	v, err := fs.call("round_places", []*variable.Value{vNum(x), vNum(float64(n))})
+	ax, an := vNum(x), vNum(float64(n))
+	v, err := fs.call("round_places", []*variable.Value{ax, an})
 	vAssert(err == nil && vKind(v) == 0, "round_places returns a number")
+	vAssert(vSameFloat(*ax.Number, x) && *an.Number == float64(n), "round_places does not change its arguments")
 	r := *v.Number
 	vReach("round_places")
 	half := 0.5 / math.Pow10(n)
